@@ -4,6 +4,7 @@ https://cloud.google.com/logging/docs/reference/v2/rest/v2/LogEntry
 
 import atexit
 import datetime
+import json as stdlib_json
 import logging
 import os
 import re
@@ -52,7 +53,12 @@ def report_suppressions(message):
 
 def log_it(payload):
     if isinstance(payload, dict):
-        payload = json.dumps(fix_dict(payload))
+        payload = fix_dict(payload)
+        try:
+            payload = json.dumps(payload)
+        except TypeError:
+            # orjson refuses lone surrogates; the standard library writes them escaped
+            payload = stdlib_json.dumps(payload)
     if isinstance(payload, bytes):
         payload = payload.decode()
     print(payload, flush=True)
@@ -86,7 +92,9 @@ class GoogleLogger(object):
         # a text message is sanitized like a dictionary when it is a JSON object
         if isinstance(message, str):
             try:
-                parsed = json.loads(message)
+                # the standard library parser: orjson refuses text holding a lone surrogate,
+                # and the message would then be written as it is
+                parsed = stdlib_json.loads(message)
                 if isinstance(parsed, dict):
                     message = parsed
             except ValueError:
